@@ -17,7 +17,8 @@ from .common import guard_table
 LEVEL_TEXT = ('Static analysis (container-order model of the encoder, definition order and value terms of the decoder, guard normal forms, call graph). '
               'Decides that encoder and decoder agree on field order and element kinds, that scalars are parsed canonically, that the decoder\'s '
               'acceptance guards are present, that serde delegates to the byte codec, and that every construction site of a proof establishes what the '
-              'decoder demands. Does not decide the exact acceptance set over all byte strings nor byte-for-byte round-trip equality.')
+              'decoder demands, and that no rejection on the decode path other than the canonical-scalar parser and the degree tag looks at the '
+              'content of the bytes. Does not decide the exact acceptance set over all byte strings nor byte-for-byte round-trip equality.')
 ASSUMPTIONS = ['Scalar::from_canonical_bytes rejects non-canonical encodings; FixedBytesRepr::{as,from}_fixed_bytes are mutually inverse',
                'chunks_exact / itertools::tuples consume their input sequentially']
 RULE_TEXT = ('one obligation per encoded field position, per scalar parse site, per decoder guard, per serde delegate, per construction site of the proof '
